@@ -140,7 +140,7 @@ class Ref:
         if o == "foreach":
             k = int(w[2])
             if 0 <= k < len(l):
-                return "7 [%s]" % ",".join(map(str, l[:k + 1]))
+                return "%d [%s]" % (-3 if k % 2 else 7, ",".join(map(str, l[:k + 1])))
             return "0 [%s]" % ",".join(map(str, l))
         if o == "clear":
             r = sorted(l)
